@@ -67,7 +67,7 @@ def boundary_ids(rng, version, hist):
 
 CFG = {"quick": 200, "thorough": 5000, "persist": ["none", "none", "json", "pickle"], "lengths": [12, 25, 40],
        "bias": {"pres_node": 1.5, "pres_child": 1.5, "set": 1.3, "internal": 1.5, "idreq": 1.5}, "malformed": 0.2,
-       "post": [boundary_ids, ota_session]}
+       "post": [boundary_ids, ota_session, gw.near_valid_reports]}
 
 
 _VAL = re.compile(r" st=.*V\(\d")
